@@ -60,6 +60,15 @@ class Skip(Exception):
 def ev_name(E, name, active):
     """value of a reference: (found, text)"""
     if name in active:
+        # re-entered: a cyclic reference at this point, which an Env or a resolver that knows the name absorbs
+        for e in reversed(E.envs):
+            if name in e:
+                return e[name]
+        for r in reversed(E.res):
+            if name in r:
+                if r[name] == "":
+                    raise Skip(name)
+                return r[name]
         raise Cyc(name)
     hit = lookup_literal(E, name)
     if hit is None:
